@@ -397,6 +397,17 @@ def ops_for(root):
             ops.append(("mset", p, 99))
     # a parameter that was taken out is put into a map again (the same or
     # another one); sub-trees stay out to keep the depth bounded
+    # a parameter that lives in one map is offered to another map that
+    # already has a child with that key: refused, nothing changes
+    maps = r_maps(root)
+    for p in r_paths(root):
+        node = r_find(root, p)
+        for mp in maps:
+            if mp == p[:-1] or mp[:len(p)] == p:
+                continue
+            tgt = r_find(root, mp)
+            if any(c_.key == node.key for c_ in tgt.children):
+                ops.append(("adddup", p, mp))
     for back, node in enumerate(reversed(root.removed[-2:])):
         if node.kind == "map" and node.children:
             continue
@@ -462,6 +473,17 @@ def apply_both(model, rroot, op):
             bad.append(("remove-raised", op, type(ex).__name__))
         r_find(rroot, p[:-1]).children.remove(node)
         rroot.removed.append(node)
+    elif k == "adddup":
+        _, p, mp = op
+        node = r_find(rroot, p)
+        parent = real_root if not mp else real_root.get(".".join(mp))
+        try:
+            parent.add(node.obj)
+            bad.append(("duplicate-key-accepted", op))
+        except ValueError:
+            pass
+        except Exception as ex:  # noqa
+            bad.append(("add-wrong-exception", op, type(ex).__name__))
     elif k == "readd":
         _, back, mp = op
         node = rroot.removed[-1 - back]
